@@ -721,6 +721,7 @@ def snapshot_module_state():
     import inspect
     _MODULE_STATE.clear()
     _BINDINGS.clear()
+    _CACHED_FUNCS.clear()
     seen = REAL["set"]()
 
     def consider(obj, where, owner=None, attr=None):
@@ -741,11 +742,15 @@ def snapshot_module_state():
             if attr.startswith("__") or attr == "set":
                 continue
             consider(val, "%s.%s" % (name, attr), mod, attr)
+            if callable(getattr(val, "cache_clear", None)) and getattr(val, "__module__", "").startswith("codelimit"):
+                _CACHED_FUNCS.append(val)
             if inspect.isfunction(val) and getattr(val, "__module__", None) == name:
                 consider_defaults(val, "%s.%s" % (name, attr))
             if inspect.isclass(val) and getattr(val, "__module__", None) == name:
                 for cattr, cval in list(vars(val).items()):
                     f = getattr(cval, "__func__", cval)
+                    if callable(getattr(f, "cache_clear", None)):
+                        _CACHED_FUNCS.append(f)
                     if inspect.isfunction(f):
                         consider_defaults(f, "%s.%s.%s" % (name, attr, cattr))
                     if not cattr.startswith("__") and not (cattr.startswith("_") and cattr.endswith("_")):
@@ -753,8 +758,16 @@ def snapshot_module_state():
     return len(_MODULE_STATE)
 
 
+_CACHED_FUNCS = []      # functools caches (lru_cache / cache) on codelimit functions: process-lifetime state too
+
+
 def restore_module_state():
     n = 0
+    for f in _CACHED_FUNCS:
+        try:
+            f.cache_clear()
+        except Exception:  # noqa: BLE001
+            pass
     for obj, snap, where in _MODULE_STATE:
         if obj != snap:
             n += 1
@@ -793,7 +806,7 @@ def install(simset=True):
     """Install all seams.  Idempotent.  Returns a dict of what is available."""
     if _INSTALLED:
         return _INSTALLED
-    os.environ.setdefault("COLUMNS", "200")
+    os.environ["COLUMNS"] = "80"      # what rich assumes when stdout is not a terminal
     os.environ["LC_ALL"] = "C.UTF-8"
     os.environ["LANG"] = "C.UTF-8"
     os.environ.pop("GITHUB_REF", None)
